@@ -334,6 +334,29 @@ where C: FullDuplexMultiChannel<ItemType = Tracked, DerivedItemType = D> + Send 
 }
 
 static MMAP_SEQ: AtomicU64 = AtomicU64::new(0);
+thread_local! { static LAST_MMAP_NAME: std::cell::RefCell<String> = const { std::cell::RefCell::new(String::new()) }; }
+
+/// A log channel with the given name (backing file `/tmp/<name>.mmap`, removed when the adapter is dropped)
+pub fn make_mmap_named(name: String, max_streams: u8) -> Arc<dyn Chan> {
+    let kind = ChanKind::MultiMmap;
+    let file = Some(format!("/tmp/{name}.mmap"));
+    match max_streams {
+        1 => Arc::new(MultiAd { ch: ChannelMultiMmapLog::<Tracked, 1>::new(name), kind, file }) as Arc<dyn Chan>,
+        2 => Arc::new(MultiAd { ch: ChannelMultiMmapLog::<Tracked, 2>::new(name), kind, file }) as Arc<dyn Chan>,
+        4 => Arc::new(MultiAd { ch: ChannelMultiMmapLog::<Tracked, 4>::new(name), kind, file }) as Arc<dyn Chan>,
+        16 => Arc::new(MultiAd { ch: ChannelMultiMmapLog::<Tracked, 16>::new(name), kind, file }) as Arc<dyn Chan>,
+        8 => Arc::new(MultiAd { ch: ChannelMultiMmapLog::<Tracked, 8>::new(name), kind, file }) as Arc<dyn Chan>,
+        other => panic!("unsupported MAX_STREAMS {other}"),
+    }
+}
+
+/// Another log channel, alive next to the one this thread created last, whose name differs from that one's only in punctuation
+/// (`rmv-<pid>-<n>` -> `rmv.<pid>.<n>` / `rmv:<pid>:<n>`): a different name is a different channel with its own history
+pub fn make_mmap_sibling(variant: u8, max_streams: u8) -> Arc<dyn Chan> {
+    let last = LAST_MMAP_NAME.with(|n| n.borrow().clone());
+    let sep = match variant % 3 { 0 => ".", 1 => ":", _ => "+" };
+    make_mmap_named(last.replace('-', sep), max_streams)
+}
 
 macro_rules! by_cfg {
     ($b:expr, $m:expr, $B:ident, $M:ident => $e:expr) => {
@@ -370,15 +393,8 @@ pub fn make(kind: ChanKind, buffer: u8, max_streams: u8, origin: u32) -> Arc<dyn
         ChanKind::MultiOgreFullSync => multi!(ChannelMultiOgreArcFullSync),
         ChanKind::MultiMmap => {
             let name = format!("rmv-{}-{}", std::process::id(), MMAP_SEQ.fetch_add(1, Relaxed));
-            let file = Some(format!("/tmp/{name}.mmap"));
-            match max_streams {
-                1 => Arc::new(MultiAd { ch: ChannelMultiMmapLog::<Tracked, 1>::new(name), kind, file }) as Arc<dyn Chan>,
-                2 => Arc::new(MultiAd { ch: ChannelMultiMmapLog::<Tracked, 2>::new(name), kind, file }) as Arc<dyn Chan>,
-                4 => Arc::new(MultiAd { ch: ChannelMultiMmapLog::<Tracked, 4>::new(name), kind, file }) as Arc<dyn Chan>,
-                16 => Arc::new(MultiAd { ch: ChannelMultiMmapLog::<Tracked, 16>::new(name), kind, file }) as Arc<dyn Chan>,
-                8 => Arc::new(MultiAd { ch: ChannelMultiMmapLog::<Tracked, 8>::new(name), kind, file }) as Arc<dyn Chan>,
-                other => panic!("unsupported MAX_STREAMS {other}"),
-            }
+            LAST_MMAP_NAME.with(|n| *n.borrow_mut() = name.clone());
+            make_mmap_named(name, max_streams)
         },
     };
     reactive_mutiny::verif::set_sequence_origin(0);
